@@ -94,7 +94,20 @@ fn strip_all_loc(stderr: &str) -> String {
     strip_loc(stderr)
 }
 
+/// answers computed ahead of time by `gen` (the CLI spawns of a tier run on several threads; the
+/// answer of a request does not depend on when it is computed)
+static PREFILLED: std::sync::OnceLock<std::sync::Mutex<std::collections::HashMap<String, String>>> = std::sync::OnceLock::new();
+
 pub fn exec(a: &[&str]) -> String {
+    if let Some(m) = PREFILLED.get() {
+        if let Some(v) = m.lock().unwrap().get(&a.join(" ")) {
+            return v.clone();
+        }
+    }
+    exec_now(a)
+}
+
+fn exec_now(a: &[&str]) -> String {
     match a[0] {
         // run <prog hex> <input hex>,<input hex>,…  ->  S<status>|seg|seg|…|E:<stderr hex>
         "run" => {
@@ -193,6 +206,32 @@ pub fn exec(a: &[&str]) -> String {
 }
 
 pub fn gen(tier: Tier, r: &mut Rng, emit: &mut dyn FnMut(String)) {
+    let mut reqs: Vec<String> = Vec::new();
+    gen_requests(tier, r, &mut |s| reqs.push(s));
+    // the CLI spawns dominate the cost: compute the answers on several threads, then emit in order
+    let workers = std::thread::available_parallelism().map(|n| n.get()).unwrap_or(4).clamp(1, 12);
+    let cache = PREFILLED.get_or_init(Default::default);
+    std::thread::scope(|sc| {
+        for w in 0..workers {
+            let reqs = &reqs;
+            sc.spawn(move || {
+                for req in reqs.iter().skip(w).step_by(workers) {
+                    let parts: Vec<&str> = req.split(' ').skip(1).collect();
+                    if parts.is_empty() {
+                        continue;
+                    }
+                    let v = exec_now(&parts);
+                    cache.lock().unwrap().insert(parts.join(" "), v);
+                }
+            });
+        }
+    });
+    for req in reqs {
+        emit(req);
+    }
+}
+
+fn gen_requests(tier: Tier, r: &mut Rng, emit: &mut dyn FnMut(String)) {
     gen_runs(tier, r, emit);
     // Replays the recorded jq 1.7.1 cases ($SV_C24_DIR/*.list, regenerated by tools/gen_c24_corpus.py):
     // every 6th case in the quick tier (process spawns), all of them in the thorough tier. The
